@@ -196,7 +196,8 @@ theorem bit_length_eq (s : List Char) : bitLengthModel s = 8 * lengthModel s := 
 /-- **source-shape pins**: the guard expressions of `Predicate::like` / `ilike`
 (`is_ascii && pattern.is_ascii()`, the order Eq → StartsWith → EndsWith → Contains → Regex, the
 slices tested), `contains_like_pattern` (memchr3 over `%`, `_`, `\`), the operands of
-`byte_substring`'s bounds (each wrapped in `check_char_boundary`) and `nth_back(back - 1)` are
+`byte_substring`'s bounds (each wrapped in `check_char_boundary`, overflow-safe), the skipping of
+null slots, the saturation of `start` / `length` into the offset type and `nth_back(back - 1)` are
 re-read from the source on every run by regular expressions spanning the whole expression; an
 edit makes the item LOST (value 0) and this theorem — and those built on the values — fail. -/
 theorem source_shape_pins :
@@ -205,6 +206,7 @@ theorem source_shape_pins :
     LIKE_CONTAINS_TRIM_START = 1 ∧ LIKE_CONTAINS_TRIM_END = 1 ∧ LIKE_SPECIAL_COUNT = 3 ∧
     ILIKE_TRIM_END = 1 ∧ ILIKE_GUARD_STARTSWITH = 1 ∧ ILIKE_TRIM_START = 1 ∧ ILIKE_GUARD_ENDSWITH = 1 ∧
     SUBSTR_POS_BASE = 0 ∧ SUBSTR_POS_CLAMP = 1 ∧ SUBSTR_NEG_BASE = 1 ∧ SUBSTR_END_CLAMP = 1 ∧
+    SUBSTR_SAT_I32 = 32 ∧ SUBSTR_SAT_I64 = 64 ∧ SUBSTR_SAT_VIEW = 64 ∧ SUBSTR_NULL_SKIP = 1 ∧
     SUBSTRC_NTH_BACK_ADJ = 1 ∧ BIT_LENGTH_FACTOR = 8 ∧ BIT_LENGTH_FACTOR_VIEW = 8 := by decide
 
 theorem bit_length_view_eq (s : List Char) : bitLengthModelView s = 8 * lengthModel s := by
